@@ -292,6 +292,22 @@ def run(ctx):
             ctx.check("no-send-for-rejected", "send-loop-over-requests", ie is not None and ie["container"] == ("field", ("param", sm.SEND, 1), "requests"),
                       "one send per element of self.requests", "send_to destination is %s" % fmt(dst), sr.loc(bb))
 
+    # ------------------------------------------------------------------ (3b) "a well-formed request": what the decoder accepts.  The request parsers answer
+    # only what RtMessage::from_bytes accepted; that it accepts nothing but well-formed tag-value messages (known tags in strictly ascending order,
+    # aligned monotone in-range offsets) is C05's decoder-guards rule set, an obligation of C07 too - a decoder that stops checking the tag order
+    # makes the server answer datagrams that are not requests of either protocol.
+    if not ctx.extra.get("no_c05"):
+        import importlib
+        from framework import Ctx
+        c5 = importlib.import_module("rules.C05")
+        sub5 = Ctx("C05", P, ctx.repo, "quick", ctx.feature)
+        c5.run(sub5)
+        mine5 = [i for i in sub5.instances if i["rule"].startswith(("decoder-guards", "ascending-enforced"))]
+        bad5 = [i for i in mine5 if not i["ok"]]
+        ctx.check("wellformed-gate", "decoder-accepts-only-well-formed-messages(C05)", not bad5, "the decoder's acceptance conditions hold (C05: %d decoder-guards instances)" % len(mine5),
+                  "the server can answer a datagram that is not a well-formed request: " + (bad5[0]["detail"] if bad5 else ""), bad5[0].get("loc") if bad5 else None)
+        ctx.floor("wellformed-decoder", len(mine5), 10, "C05 decoder-guards instances")
+
     # ------------------------------------------------------------------ (4) size budget
     okb, whyb = chk.check("batch_size_is_u8")
     ctx.check("size-budget", "batch-bounded-by-u8", okb, whyb, whyb)
